@@ -455,7 +455,7 @@ def variant_form(rng, arr, what):
     if dt == np.int8 and arr.max() > 100:
         dt = np.int64
     a = arr.astype(dt)
-    lay = rng.choice(["C", "noncontiguous", "readonly"] + (["F"] if what == "mask" else []))
+    lay = rng.choice(["C", "noncontiguous", "readonly", "F"])
     if lay == "noncontiguous":
         a = np.repeat(a, 2, axis=2)[:, :, ::2]
     elif lay == "F":
@@ -506,8 +506,13 @@ def live_history(rng, impl, g0, nmax, exact, mask_checks, fails, stats):
             v[rng.randrange(ncells)] = B - 1
             a, form = variant_form(rng, np.array(v).reshape(shape), "voxel_map")
             forms[form] = forms.get(form, 0) + 1
-            mat.voxel_map = a
-            if [int(x) for x in np.asarray(mat.voxel_map).ravel()] != v or mat.bins != B:
+            try:
+                mat.voxel_map = a
+            except ValueError as exc:
+                fails.append({"claim": "a valid voxel map is accepted in any integer-valued dtype and memory layout (%s)" % form,
+                              "given": v, "form": form, "error": "ValueError: %s" % exc, "grid": {k: g0[k] for k in ("kind", "shape")}})
+                rejected = ("voxel_map/" + form, "ValueError")
+            if rejected is None and ([int(x) for x in np.asarray(mat.voxel_map).ravel()] != v or mat.bins != B):
                 fails.append({"claim": "voxel_map setter: the object holds the map it was given (any integer-valued dtype / layout) and "
                                        "bins = max + 1", "given": v, "form": form, "held": np.asarray(mat.voxel_map).ravel().tolist(),
                               "bins": int(mat.bins)})
@@ -522,7 +527,11 @@ def live_history(rng, impl, g0, nmax, exact, mask_checks, fails, stats):
         elif op == "min_samples":
             integ.min_samples = rng.choice([2, 3, 7, 20])
         elif op == "reject":
-            what = rng.choice(["step=0", "step<0", "min_samples=1", "mask-shape", "voxel_map-shape", "voxel_map-Fortran"])
+            what = rng.choice(["step=0", "step<0", "min_samples=1", "mask-shape", "voxel_map-shape", "voxel_map-list", "mask-list",
+                               "voxel_map-2d", "mask-transposed-shape"])
+            want_exc = TypeError if what.endswith("-list") else ValueError
+            if what == "mask-transposed-shape" and shape == shape[::-1]:
+                what = "mask-shape"
             try:
                 if what == "step=0":
                     integ.step = 0.0
@@ -532,34 +541,44 @@ def live_history(rng, impl, g0, nmax, exact, mask_checks, fails, stats):
                     integ.min_samples = 1
                 elif what == "mask-shape":
                     mat.mask = np.ones((shape[0] + 1, shape[1], shape[2]), dtype=bool)
+                elif what == "mask-transposed-shape":
+                    mat.mask = np.ones(shape[::-1], dtype=bool)
                 elif what == "voxel_map-shape":
                     mat.voxel_map = np.zeros((shape[0], shape[1] + 1, shape[2]), dtype=np.int32)
+                elif what == "voxel_map-2d":
+                    mat.voxel_map = np.zeros((shape[0], shape[1] * shape[2] + 1), dtype=np.int32)
+                elif what == "voxel_map-list":
+                    mat.voxel_map = np.zeros(shape, dtype=np.int32).tolist()
                 else:
-                    v = np.array([rng.randint(-1, 1) for _ in range(ncells)], dtype=np.int32).reshape(shape)
-                    v.flat[0] = 1
-                    f = np.asfortranarray(v)
-                    if f.flags["C_CONTIGUOUS"]:
-                        raise ValueError("layouts coincide")
-                    mat.voxel_map = f
+                    mat.mask = np.ones(shape, dtype=bool).tolist()
                 rejected = (what, None)
-            except ValueError as exc:
-                rejected = (what, "ValueError")
+            except (ValueError, TypeError, AttributeError) as exc:
+                rejected = (what, type(exc).__name__)
             stats["rejected_updates"] = stats.get("rejected_updates", 0) + 1
-            if rejected[1] is None and what != "voxel_map-Fortran":
-                fails.append({"claim": "an invalid value (%s) is rejected with ValueError" % what, "grid": {k: g0[k] for k in ("kind", "shape")}})
-            if rejected[1] is not None:
-                after = np.array(mat.voxel_map)
-                if after.shape != before.shape or not np.array_equal(after, before) or \
-                        (int(mat.bins), integ.step, integ.min_samples) != before_cfg:
-                    fails.append({"claim": "a rejected assignment (%s) leaves the object as it was: the voxel_map / mask it reports are "
-                                           "the ones it integrates with" % what,
-                                  "key": "c10:rejected-%s-stale-state" % what,
-                                  "grid": {k: v for k, v in g0.items() if k not in ("cases", "traces")},
-                                  "map_before": before.ravel().tolist(), "map_reported_after": after.ravel().tolist(),
-                                  "bins_before": before_cfg[0], "bins_after": int(mat.bins),
-                                  "how": "material.voxel_map = np.asfortranarray(<valid map>) raises ValueError('ndarray is not "
-                                         "C-contiguous') after self._voxel_map was already replaced; voxel_map_mv and _bins keep the old map"})
-                    mat.voxel_map = np.ascontiguousarray(before)      # re-synchronise and go on
+            if rejected[1] is None:
+                fails.append({"claim": "an invalid value (%s) is rejected" % what, "grid": {k: g0[k] for k in ("kind", "shape")}})
+        if rejected is not None and rejected[1] is not None:
+            # EVERY rejected assignment: the state the object reports AND the state integrate() uses are both unchanged
+            what = rejected[0]
+            after = np.array(mat.voxel_map)
+            reported_same = after.shape == before.shape and np.array_equal(after, before) and \
+                (int(mat.bins), integ.step, integ.min_samples) == before_cfg
+            probe0, probe1 = ([coord(rng, 0.0, g0["ext"][a] * 0.99, False) for a in range(3)] for _ in range(2)) if kind == "cart" else \
+                ([g0["rmin"] + 0.37 * g0["dr"], 0.11 * g0["dr"], 0.1 * g0["zmax"]], [-(g0["rmax"] - 0.21 * g0["dr"]) * 0.7, (g0["rmax"] - 0.2 * g0["dr"]) * 0.7, 0.9 * g0["zmax"]])
+            nb = before_cfg[0]
+            live_out, live_err = impl.call(kind, mat, before_cfg[1], before_cfg[2], IDENT12, probe0, probe1, [0.0] * max(nb, int(mat.bins)))
+            ref_out, ref_err = impl.call(kind, impl.material(g0, vm=[int(x) for x in before.ravel()]), before_cfg[1], before_cfg[2],
+                                         IDENT12, probe0, probe1, [0.0] * max(nb, int(mat.bins)))
+            used_same = (live_out, live_err) == (ref_out, ref_err)
+            if not (reported_same and used_same):
+                fails.append({"claim": "a rejected assignment leaves the object as it was: the voxel_map / mask / bins it reports and the "
+                                       "map integrate() uses are both the ones from before",
+                              "assignment": what, "raised": rejected[1], "reported_unchanged": bool(reported_same), "used_unchanged": bool(used_same),
+                              "grid": {k: v for k, v in g0.items() if k not in ("cases", "traces")},
+                              "map_before": before.ravel().tolist(), "map_reported_after": after.ravel().tolist(),
+                              "bins_before": before_cfg[0], "bins_after": int(mat.bins),
+                              "probe": {"p0": probe0, "p1": probe1, "entries_live": live_out, "entries_with_map_before": ref_out}})
+                mat.voxel_map = np.ascontiguousarray(before)      # re-synchronise and go on
         # ---- integrate with the live objects ----
         bins = int(mat.bins)
         g = dict(g0, vm=[int(x) for x in np.asarray(mat.voxel_map).ravel()], map_kind="live-history", exact=exact, bins=bins, cases=[])
@@ -819,7 +838,12 @@ def run(ctx):
                 mask_arg, form = variant_form(rng, np.array(mask, dtype=bool).reshape(g["shape"]), "mask")
         np_args = rng.random() < 0.3
         arg_forms[form + ("+numpy-scalars" if np_args else "")] = arg_forms.get(form + ("+numpy-scalars" if np_args else ""), 0) + 1
-        mat = impl.material(g, vm=vm_arg, mask=mask_arg, np_args=np_args)
+        try:
+            mat = impl.material(g, vm=vm_arg, mask=mask_arg, np_args=np_args)
+        except ValueError as exc:
+            pre_fails.append({"claim": "a valid mask / voxel map is accepted in any dtype and memory layout (%s)" % form,
+                              "grid": {k: g[k] for k in ("kind", "shape")}, "voxel_map": vm, "mask": mask, "error": "ValueError: %s" % exc})
+            mat = impl.material(g, vm=vm, mask=mask)
         g["vm"] = [int(v) for v in np.asarray(mat.voxel_map).ravel()]
         g["map_kind"], g["exact"], g["bins"] = mk, exact, int(mat.bins)
         if vm is not None and g["vm"] != [int(v) for v in vm]:
